@@ -3,6 +3,7 @@ import Wee.Model.AttackCache
 import Wee.Model.Cbor
 import Wee.Model.Hash
 import Wee.Model.Eval
+import Wee.Model.Search
 /-! Request handlers: for every request line the MODEL answer and the SPEC answer ("-" = no oracle). -/
 namespace Driver
 open Wee
@@ -323,6 +324,51 @@ def handle (line : String) : Out :=
       | Option.none => "badfen"
       | some s => toString (estimate s raw.toUInt32)
     ⟨model, "-"⟩
+  | "search" =>
+    -- search <seed> <depth|-> <workers|-> <cancel|-> <tables> <buckets> <nhist> <hist fens with _>* <fen...>
+    let seed := parts[1]!.toNat!
+    let optNat (t : String) : Option Nat := if t == "-" then Option.none else t.toNat?
+    let depth := optNat parts[2]!
+    let workers := optNat parts[3]!
+    let cancel := optNat parts[4]!
+    let tables := parts[5]!.toNat!
+    let buckets := parts[6]!.toNat!
+    let nhist := parts[7]!.toNat!
+    let hist := ((parts.drop 8).take nhist).filterMap fun h => parseFenM (h.replace "_" " ")
+    let fen := rest (8 + nhist)
+    match parseFenM fen with
+    | Option.none => ⟨"badfen", "-"⟩
+    | some root =>
+      let (kt, _) := KeyTable.ofRng (Rng.seedFromU64 seed.toUInt64)
+      let art : Search.Artifact := { keys := kt, tt := TT.Access.new tables buckets,
+                                     history := hist.map (Wee.hash kt.keys) }
+      let workersOf (d : Nat) : Nat := match workers with
+        | some w => w
+        | Option.none => if d < Gen.singleWorkerBelowDepth then 1 else Gen.defaultMaxThreadCount
+      let out := Search.iterate root (Rng.seedFromU64 seed.toUInt64) depth art workersOf cancel
+      match out.panic with
+      | some _ => ⟨"panic", "-"⟩
+      | Option.none =>
+        let evs := out.events.map fun e => match e with
+          | .best ev line => s!"best:{ev}:{",".intercalate (line.map fun m => toString m.toNat)}"
+          | .progress d n => s!"prog:{d}:{n}"
+          | .warning => "warn"
+        let rootE := out.artifact.tt.find (Wee.hash kt.keys root).toNat
+        ⟨joinSp (evs ++ [s!"entries:{out.artifact.tt.entries}/{out.artifact.tt.maxEntries}", s!"root:{entryStr rootE}"]), "-"⟩
+  | "linecheck" =>
+    -- linecheck <raw,raw,...> <fen...>  (spec only): is the line legal move by move?
+    let raws := (parts[1]!.splitOn ",").filterMap String.toNat?
+    let fen := rest 2
+    match specOf fen with
+    | none => ⟨"-", "-"⟩
+    | some p0 =>
+      let rec go : List Nat → Spec.Pos → Nat → String
+        | [], _, _ => "legal"
+        | r :: rs, p, i =>
+          match toSpecMove r.toUInt32 with
+          | Option.none => s!"illegal@{i}"
+          | some sm => if (Spec.legalMoves p).contains sm then go rs (Spec.applyMove p sm) (i+1) else s!"illegal@{i}"
+      ⟨"-", if raws.isEmpty then "empty" else go raws p0 0⟩
   | "rng" =>
     let r := Rng.seedFromU64 parts[1]!.toNat!.toUInt64
     let n := parts[2]!.toNat!
